@@ -474,3 +474,284 @@ func filterHelperShape(h *ssa.Function, site *ssa.Call, early bool) (bool, strin
 	}
 	return true, "shared loop: the stop answer only where a filter gave it, its negation otherwise"
 }
+
+// runValueOptions (INPUT-V): the value options record exactly what they are given. Every entry written into one of
+// the argument builder's value tables (map … → reflect.Value, directly or in an inner by-subtype map) is
+// reflect.ValueOf of a value parameter of an option constructor (or an entry copied from the same table of another
+// builder), and where the table is keyed by type the key is that very value's Type(). `Typed(cfg)` that also files a
+// pointer to a private copy under *T manufactures an input nobody supplied and overwrites one somebody did.
+func (c *Ctx) runValueOptions() {
+	p := c.P
+	builderField := func(m ssa.Value) (string, bool) {
+		fr, ok := core.AsFieldLoad(m)
+		if ok && fr.Owner == "argBuilder" {
+			return fr.Field, true
+		}
+		return "", false
+	}
+	isRV := func(t types.Type) bool { return core.TypeStr(t) == "reflect.Value" }
+	// the outer lookup an inner by-subtype map was obtained by
+	outerOf := func(m ssa.Value) (field string, key ssa.Value, ok bool) {
+		for _, sv := range core.Sources(m) {
+			switch x := core.Strip(sv).(type) {
+			case *ssa.Lookup:
+				if f, ok := builderField(x.X); ok {
+					return f, x.Index, true
+				}
+			case *ssa.Extract:
+				if lk, ok := x.Tuple.(*ssa.Lookup); ok {
+					if f, ok := builderField(lk.X); ok {
+						return f, lk.Index, true
+					}
+				}
+			case *ssa.MakeMap:
+				for _, ref := range *x.Referrers() {
+					if m2, ok := ref.(*ssa.MapUpdate); ok && m2.Value == ssa.Value(x) {
+						if f, ok := builderField(m2.Map); ok {
+							return f, m2.Key, true
+						}
+					}
+				}
+			}
+		}
+		return "", nil, false
+	}
+	// the value handed to reflect.ValueOf, traced to parameters of option constructors
+	var givenValue func(v ssa.Value, d int) (string, bool)
+	givenValue = func(v ssa.Value, d int) (string, bool) {
+		if v == nil || d > 10 {
+			return "", false
+		}
+		v = core.Strip(v)
+		switch x := v.(type) {
+		case *ssa.MakeInterface:
+			return givenValue(x.X, d+1)
+		case *ssa.ChangeInterface:
+			return givenValue(x.X, d+1)
+		case *ssa.Slice:
+			return givenValue(x.X, d+1)
+		case *ssa.UnOp:
+			if x.Op != token.MUL {
+				return "", false
+			}
+			if ia, ok := x.X.(*ssa.IndexAddr); ok {
+				return givenValue(ia.X, d+1) // an element of the variadic list
+			}
+			if dv := p.DerefFree(x); dv != nil {
+				return givenValue(dv, d+1)
+			}
+			if al, ok := x.X.(*ssa.Alloc); ok {
+				if sv := core.SingleStore(al); sv != nil {
+					return givenValue(sv, d+1)
+				}
+			}
+			return "", false
+		case *ssa.Extract:
+			if nx, ok := x.Tuple.(*ssa.Next); ok && x.Index == 2 {
+				if rg, ok := nx.Iter.(*ssa.Range); ok {
+					return givenValue(rg.X, d+1)
+				}
+			}
+			return "", false
+		case *ssa.FreeVar:
+			if b := p.Binding(x); b != nil {
+				return givenValue(b, d+1)
+			}
+			return "", false
+		case *ssa.Alloc:
+			if sv := core.SingleStore(x); sv != nil {
+				return givenValue(sv, d+1)
+			}
+			return "", false
+		case *ssa.Phi:
+			who := ""
+			for _, e := range x.Edges {
+				w, ok := givenValue(e, d+1)
+				if !ok {
+					return "", false
+				}
+				who = w
+			}
+			return who, who != ""
+		case *ssa.Parameter:
+			if b, isB := x.Type().Underlying().(*types.Basic); isB && b.Kind() == types.String {
+				return "", false
+			}
+			par := x.Parent()
+			if par.Parent() == nil && isArgCtor(par) {
+				return par.Name() + "." + x.Name(), true
+			}
+			if !p.PrivateHelper(par) {
+				return "", false
+			}
+			idx, who := paramIndex(x), ""
+			sites := p.Callers(par)
+			if idx < 0 || len(sites) == 0 {
+				return "", false
+			}
+			for _, site := range sites {
+				if idx >= len(site.Common().Args) {
+					return "", false
+				}
+				w, ok := givenValue(site.Common().Args[idx], d+1)
+				if !ok {
+					return "", false
+				}
+				who = w
+			}
+			return who, true
+		}
+		return "", false
+	}
+	var typeOfSame func(key, val ssa.Value, d int) bool
+	typeOfSame = func(key, val ssa.Value, d int) bool {
+		if d > 3 {
+			return false
+		}
+		// key and value handed to a private setter: judged at each call site
+		if kp, ok := core.Strip(key).(*ssa.Parameter); ok {
+			vp, ok := core.Strip(val).(*ssa.Parameter)
+			if !ok || vp.Parent() != kp.Parent() || !p.PrivateHelper(kp.Parent()) {
+				return false
+			}
+			ki, vi := paramIndex(kp), paramIndex(vp)
+			sites := p.Callers(kp.Parent())
+			if len(sites) == 0 {
+				return false
+			}
+			for _, site := range sites {
+				as := site.Common().Args
+				if ki >= len(as) || vi >= len(as) || !typeOfSame(as[ki], as[vi], d+1) {
+					return false
+				}
+			}
+			return true
+		}
+		for _, sv := range core.Sources(key) {
+			cl, ok := core.Strip(sv).(*ssa.Call)
+			if !ok || core.CalleeName(cl.Common()) != "(reflect.Value).Type" {
+				return false
+			}
+			a := cl.Common().Args[0]
+			if a != val && core.Path(a) != core.Path(val) {
+				// both may be loads of one local, or reads of one captured variable
+				la, ok1 := core.Strip(a).(*ssa.UnOp)
+				lv, ok2 := core.Strip(val).(*ssa.UnOp)
+				if !(ok1 && ok2 && la.X == lv.X) {
+					return false
+				}
+			}
+		}
+		return true
+	}
+	n := 0
+	for _, f := range p.ArgFuncs() {
+		core.Instrs(f, func(in ssa.Instruction) {
+			mu, ok := in.(*ssa.MapUpdate)
+			if !ok {
+				return
+			}
+			mt, ok := mu.Map.Type().Underlying().(*types.Map)
+			if !ok || !isRV(mt.Elem()) {
+				return
+			}
+			field, direct := builderField(mu.Map)
+			var outerKey ssa.Value
+			if !direct {
+				var ok bool
+				field, outerKey, ok = outerOf(mu.Map)
+				if !ok {
+					return
+				}
+			}
+			n++
+			c.R.Func(core.FuncName(f))
+			// copied from the same table of another builder
+			copied := false
+			for _, sv := range core.Sources(mu.Value) {
+				if ex, ok := core.Strip(sv).(*ssa.Extract); ok {
+					if nx, ok := ex.Tuple.(*ssa.Next); ok {
+						if rg, ok := nx.Iter.(*ssa.Range); ok {
+							if f2, ok := builderField(rg.X); ok && f2 == field && direct {
+								copied = true
+							}
+							if f2, _, ok := outerOf(rg.X); ok && f2 == field && !direct {
+								copied = true
+							}
+						}
+					}
+				}
+			}
+			found := "copied from the same table of another builder"
+			okv := copied
+			if !copied {
+				okv = true
+				who := ""
+				srcs := p.ISources(mu.Value)
+				for i := 0; i < len(srcs) && i < 32; i++ {
+					// a value computed by the constructor and captured by the option closure
+					if ld, ok := core.Strip(srcs[i]).(*ssa.UnOp); ok && ld.Op == token.MUL {
+						if dv := p.DerefFree(ld); dv != nil {
+							srcs = append(srcs, p.ISources(dv)...)
+							srcs[i] = nil
+						}
+					}
+				}
+				for _, sv := range srcs {
+					if sv == nil {
+						continue
+					}
+					sv = core.Strip(sv)
+					if al, isAl := sv.(*ssa.Alloc); isAl && isRV(al.Type().(*types.Pointer).Elem()) && core.SingleStore(al) == nil {
+						continue // the zero Value a step returns together with "not valid"
+					}
+					if k, isK := sv.(*ssa.Const); isK && k.Value == nil {
+						continue
+					}
+					cl, isCall := sv.(*ssa.Call)
+					if !isCall || core.CalleeName(cl.Common()) != "reflect.ValueOf" {
+						okv = false
+						found = "the entry may be " + core.Path(sv) + ", not reflect.ValueOf of a given value"
+						break
+					}
+					w, ok := givenValue(cl.Common().Args[0], 0)
+					if !ok {
+						okv = false
+						found = "reflect.ValueOf of " + core.Path(cl.Common().Args[0]) + ", which is not a value parameter of an option constructor"
+						break
+					}
+					who = w
+				}
+				if okv && who == "" {
+					okv = false
+					found = "no reflect.ValueOf of a given value reaches the entry"
+				}
+				if okv {
+					found = "reflect.ValueOf(" + who + ")"
+					tk := mu.Key
+					if !direct {
+						tk = outerKey
+					}
+					if (direct && core.TypeStr(mt.Key()) == "reflect.Type") || (!direct && core.TypeStr(tk.Type()) == "reflect.Type") {
+						if !typeOfSame(tk, mu.Value, 0) {
+							okv = false
+							found += " filed under a type key that is not that value's own Type()"
+						}
+					}
+				}
+			}
+			c.R.Add("INPUT-V", fmt.Sprintf("%s|%s entry#%d", core.FuncName(f), field, n), core.FuncName(f), p.InstrPos(mu), okv,
+				"an entry of the argument builder's value tables is reflect.ValueOf of a value handed to an option constructor, filed (where the table is keyed by type) under that value's own type — nothing is manufactured from it",
+				found)
+		})
+	}
+}
+
+func paramIndex(x *ssa.Parameter) int {
+	for i, q := range x.Parent().Params {
+		if q == x {
+			return i
+		}
+	}
+	return -1
+}
